@@ -182,6 +182,8 @@ static void mon_c06(World& w) {
 // C08 (wire half) -----------------------------------------------------------------------------
 static void mon_c08(World& w) {
     const std::string sn = w.sc.family(); auto& wire = w.broker->wire;
+    // every exchange has completed: every identifier must be available again (else pid_overrun comes before 65535 are in use)
+    if (w.free_ids_at_quiet >= 0 && w.free_ids_at_quiet != 65535) w.vio("C08:id-not-released:" + sn, std::to_string(65535 - w.free_ids_at_quiet) + " packet identifier(s) still reserved although every exchange has completed");
     // which op does a client packet belong to
     auto owner = [&](const ref::Packet& p) -> int { for (auto& o : w.ops) {
             if (o.kind == Action::PUB && p.type == ref::PUBLISH && p.payload == o.payload) return o.id;
